@@ -53,6 +53,8 @@ func (m *ModeBuilder) Build(errs *errlogger.ErrLogger, fset *gotoken.FileSet) *M
 
 	d := dfa.NFAToDFA(start)
 
+	splitStartState(d)
+
 	mergeTransitions(d)
 
 	for _, state := range d.States {
@@ -106,6 +108,41 @@ func (m *ModeBuilder) pickAction(
 	}
 
 	return winner
+}
+
+// splitStartState makes sure that no transition leads to the start state.
+// The generated state machine takes state 0 to mean that no input has been
+// consumed since the last token, which minimization does not guarantee: it can
+// merge the start state with a state in the middle of a token. When that
+// happens, transitions are redirected to a copy of the start state.
+func splitStartState(d *dfa.DFA) {
+	start := d.States[0]
+	hasIncoming := false
+	for _, state := range d.States {
+		state.Transitions.ForEach(func(_ any, to *dfa.State) {
+			hasIncoming = hasIncoming || to == start
+		})
+	}
+	if !hasIncoming {
+		return
+	}
+	clone := &dfa.State{
+		ID:        uint32(len(d.States)),
+		Accept:    start.Accept,
+		NonGreedy: start.NonGreedy,
+		NFAStates: start.NFAStates,
+	}
+	d.States = append(d.States, clone)
+	start.Transitions.ForEach(func(input any, to *dfa.State) {
+		clone.AddTransition(to, input)
+	})
+	for _, state := range d.States {
+		state.Transitions.ForEach(func(input any, to *dfa.State) {
+			if to == start {
+				state.AddTransition(clone, input)
+			}
+		})
+	}
 }
 
 func New(name string) *ModeBuilder {
